@@ -5,6 +5,7 @@ import (
 	"container/list"
 	"encoding/json"
 	"fmt"
+	"os"
 	"regexp"
 	"sort"
 	"sync"
@@ -246,8 +247,15 @@ var traceMu sync.Mutex // the tracer is one global function variable
 
 // validateHandlerSteps traces every k-th vector and lets TLC judge every recorded handler step
 func validateHandlerSteps(rc *Run, g *genEvalResult, every int, prop string) error {
+	if os.Getenv("VERIF_ISOLATE") != "" {
+		rc.Logf("handler-step tracing is skipped in isolated mode (an evaluation kills the process)")
+		return nil
+	}
 	traceMu.Lock()
 	defer traceMu.Unlock()
+	if cap := rc.Pick(6000, 20000); len(g.Vectors)/every > cap { // TLC reads the whole trace: keep it to a few hundred thousand steps
+		every = len(g.Vectors) / cap
+	}
 	var all []evalStep
 	evaluations, notAligned := 0, 0
 	for i, v := range g.Vectors {
